@@ -760,7 +760,7 @@ class Repo:
                 for k, v, st, ex in fi.defs()[f.id]:
                     if k == 'def' and isinstance(v, ast.FunctionDef):
                         return [FuncInfo(fi.module, None, v, outer=fi)]
-                return []
+                return self._callable_values(fi, f.id)
             r = self.resolve_name(fi.module, f.id)
             if r is None:
                 return []
@@ -790,6 +790,47 @@ class Repo:
                     m = self.lookup_method(r[1], ch[1])
                     return [m] if m else []
         return []
+
+    def _callable_values(self, fi, name):
+        """Method values: the repo functions a local can hold when it is a loop variable over a literal table of callables
+        (`for n, step in ((10, self.a), (5, partial(self.b, x=1))): step()`) or is assigned one (`step = self.a`). [] when not of that form."""
+        out = []
+
+        def target_of(e):
+            if isinstance(e, ast.Call) and (dotted(e.func) or '').split('.')[-1] == 'partial' and e.args:
+                e = e.args[0]
+            if isinstance(e, ast.Attribute):
+                ci, after = self.receiver_class(fi, e.value)
+                if ci is not None:
+                    m = self.lookup_method(ci, e.attr, after=after)
+                    return [m] if m else []
+            if isinstance(e, ast.Name):
+                r = self.resolve_name(fi.module, e.id)
+                if r is not None and r[0] in ('func', 'bound'):
+                    return [r[1]]
+            return []
+        for k, v, st, ex in fi.defs().get(name, []):
+            if k == 'assign' and v is not None and not ex:
+                out.extend(target_of(v))
+            elif k in ('for', 'unpack', 'comp') and v is not None:
+                table = fi.expand(v) if isinstance(v, ast.Name) else v
+                if isinstance(table, (ast.Tuple, ast.List)):
+                    for row in table.elts:
+                        cell = row
+                        for i in (ex or ()):
+                            if isinstance(cell, (ast.Tuple, ast.List)) and isinstance(i, int) and i < len(cell.elts):
+                                cell = cell.elts[i]
+                            else:
+                                cell = None
+                                break
+                        if cell is not None:
+                            out.extend(target_of(cell))
+        seen, uniq = set(), []
+        for m in out:
+            if id(m.node) not in seen:
+                seen.add(id(m.node))
+                uniq.append(m)
+        return uniq
 
     def prop_reads(self, fi):
         """(node, getter FuncInfo) for attribute loads on self / typed receivers that resolve to a property."""
